@@ -7,7 +7,7 @@
 From Coq Require Import ZArith List String Bool Reals.
 From Hexital Require Import Base.Prelude Base.Num Model.Manager Model.Candle Model.Readings Model.Engine
   Inst.RealInst Inst.ZInst Inst.FloatInst Spec.Steppers Proofs.SpecReal
-  Model.Analysis Proofs.EngineProofs Proofs.CausalProofs Proofs.CounterProofs Proofs.IntLawsInst Proofs.ThresProofs Proofs.ExtremeProofs.
+  Model.Analysis Proofs.EngineProofs Proofs.CausalProofs Proofs.CounterProofs Proofs.IntLawsInst Proofs.ThresProofs Proofs.ExtremeProofs Proofs.StdevProofs Proofs.StructProofs.
 Import ListNotations.
 Local Open Scope R_scope.
 
@@ -104,3 +104,54 @@ Theorem C05_lowest_is_window_min :
     In v rs /\ forall y, In y rs -> num_of ROps v <= num_of ROps y.
 Proof. exact lowest_is_window_min. Qed.
 Print Assumptions C05_lowest_is_window_min.
+
+(* rolling population standard deviation: the update of the stored mean and variance when
+   the window slides is exact - S and Q are the sum and the sum of squares of the old window
+   of p slots, x enters, r leaves *)
+Theorem C05_rolling_update_identity :
+  forall p S Q x r : R, p <> 0 ->
+  let m := S / p in let v := Q / p - m * m in
+  let m' := m + (x - r) / p in
+  let v' := v + (x - r) * (x - m' + r - m) / p in
+  m' = (S - r + x) / p /\ v' = (Q - r * r + x * x) / p - m' * m'.
+Proof. exact rolling_update_identity. Qed.
+Print Assumptions C05_rolling_update_identity.
+
+(* ... and the reading of a candle is the square root of exactly that updated variance
+   (clamped at 0), or None until the window is available *)
+Theorem C05_stdev_reading :
+  forall (I : ind ROps) rec (period : Z) (input : string) (st st' : store ROps) i v (x : R),
+  (0 < period)%Z -> i_kind ROps I = K_STDEV period input -> calc_reading ROps rec I st i = Ok (v, st') ->
+  reading ROps st input i = Ok (@VNum ROps x) ->
+  exists (removed old_mean var0 : R),
+    let new_mean := old_mean + (x - removed) / IZR period in
+    let variance := var0 + (x - removed) * (x - new_mean + removed - old_mean) / IZR period in
+    v = VNone \/ v = @VNum ROps (sqrt (Rmax variance 0)).
+Proof. exact stdev_reading. Qed.
+Print Assumptions C05_stdev_reading.
+
+(* Bollinger = SMA +/- 2 sigma and Keltner = EMA +/- multiplier * ATR, as assembled by the
+   classes from their helper readings (the same statements serve C10's band order) *)
+Theorem C05_bollinger_definition :
+  forall (I : ind ROps) rec (period : Z) (input : string) (st st' : store ROps) i v,
+  i_kind ROps I = K_BBANDS period input -> calc_reading ROps rec I st i = Ok (v, st') ->
+  v = VDict [("BBL", VNone); ("BBM", VNone); ("BBU", VNone)]%string \/
+  exists (sma sd : val ROps) (s d : R),
+    v = VDict [("BBL", @VNum ROps (s - d * (20 / 10))); ("BBM", sma); ("BBU", @VNum ROps (s + d * (20 / 10)))]%string /\
+    reading ROps st (i_name ROps I ++ "_SMA") i = Ok sma /\ reading ROps st (i_name ROps I ++ "_STDEV") i = Ok sd /\
+    as_num ROps sma = Ok s /\ as_num ROps sd = Ok d /\
+    (0 <= d -> s - d * (20 / 10) <= s <= s + d * (20 / 10)).
+Proof. exact bbands_structure. Qed.
+Print Assumptions C05_bollinger_definition.
+
+Theorem C05_keltner_definition :
+  forall (I : ind ROps) rec (period : Z) (mult : R) (input : string) (st st' : store ROps) i v,
+  i_kind ROps I = @K_KC ROps period mult input -> calc_reading ROps rec I st i = Ok (v, st') ->
+  v = VDict [("lower", VNone); ("band", VNone); ("upper", VNone)]%string \/
+  exists (e a : val ROps) (en an : R),
+    v = VDict [("lower", @VNum ROps (en - mult * an)); ("band", e); ("upper", @VNum ROps (en + mult * an))]%string /\
+    reading ROps st (i_name ROps I ++ "_EMA") i = Ok e /\ reading ROps st (i_name ROps I ++ "_ATR") i = Ok a /\
+    as_num ROps e = Ok en /\ as_num ROps a = Ok an /\
+    (0 <= mult -> 0 <= an -> en - mult * an <= en <= en + mult * an).
+Proof. exact kc_structure. Qed.
+Print Assumptions C05_keltner_definition.
